@@ -672,6 +672,10 @@ unsafe impl Sync for SecureChunk {}
 /// Lock-free stack for high-performance chunk storage (Treiber stack)
 struct LockFreeStack<T> {
     head: AtomicPtr<Node<T>>,
+    /// Serialises `pop`. Nodes are unlinked and freed by `pop` only, so while a single thread
+    /// at a time pops, the node it read `next` from can neither be freed (use-after-free) nor
+    /// be popped and pushed back (ABA) before its compare-exchange. `push` stays lock-free.
+    pop_lock: parking_lot::Mutex<()>,
 }
 
 struct Node<T> {
@@ -683,6 +687,7 @@ impl<T> LockFreeStack<T> {
     fn new() -> Self {
         Self {
             head: AtomicPtr::new(std::ptr::null_mut()),
+            pop_lock: parking_lot::Mutex::new(()),
         }
     }
 
@@ -711,6 +716,7 @@ impl<T> LockFreeStack<T> {
     }
 
     fn pop(&self) -> Option<T> {
+        let _pop_guard = self.pop_lock.lock();
         loop {
             verif_point!("sp.pop.load");
             let head = self.head.load(Ordering::Acquire);
